@@ -852,8 +852,8 @@ def sym_float_like(x, dtype):
 
 def isclose(a, b, rtol=1e-05, atol=1e-08):
     def f(u, v):
-        d = abs(u - v)
-        return d <= atol + rtol * abs(v)
+        d = _bi.abs(u - v)
+        return d <= atol + rtol * _bi.abs(v)
     return _ew2(a, b, f)
 
 
@@ -921,7 +921,7 @@ def _ew2(a, b, f):
 
 
 def fabs(x):
-    return _ew(x, lambda v: abs(v) if not _isnan(v) else nan)
+    return _ew(x, lambda v: _bi.abs(v) if not _isnan(v) else nan)
 
 
 absolute = fabs
@@ -972,14 +972,14 @@ def _reduce(a, axis, f, init=None):
 
 
 def _sumlist(vals):
-    acc = 0.0 if any(isinstance(v, (float, SymReal)) for v in vals) or not vals else 0
+    acc = 0.0 if _bi.any(isinstance(v, (float, SymReal)) for v in vals) or not vals else 0
     for v in vals:
         acc = _add(acc, v)
     return acc
 
 
 def _nansumlist(vals):
-    acc = 0.0 if any(isinstance(v, (float, SymReal)) for v in vals) or not vals else 0
+    acc = 0.0 if _bi.any(isinstance(v, (float, SymReal)) for v in vals) or not vals else 0
     for v in vals:
         if _isnan(v):
             continue
@@ -1227,7 +1227,7 @@ def arange(*args):
 
 def concatenate(tup, axis=0):
     arrs = [asarray(a) for a in tup]
-    if all(a.ndim == 1 for a in arrs):
+    if _bi.all(a.ndim == 1 for a in arrs):
         return hstack(arrs)
     if axis == 0:
         return vstack(arrs)
@@ -1348,3 +1348,82 @@ def sort(a):
 int_ = int64
 float_ = float64
 bool_ = bool
+
+
+abs = fabs
+
+
+def power(x, k):
+    return _ew(x, lambda v: core.sym_pow(v, k) if is_sym(v) else _pow(v, k))
+
+
+def copy(a):
+    return asarray(a).copy()
+
+
+def array_equal(a, b):
+    a, b = asarray(a), asarray(b)
+    if a.shape != b.shape:
+        return False
+    return all(a == b)
+
+
+def append(a, values):
+    return hstack((asarray(a).flatten(), asarray(values).flatten() if not _is_scalar(values) else SArr(Buf([values]), (1,))))
+
+
+def delete(a, idx):
+    a = asarray(a)
+    ks = [_idx(idx)] if _is_scalar(idx) else [_idx(v) for v in asarray(idx).flat()]
+    if a.ndim == 1:
+        vals = [v for k, v in enumerate(a.flat()) if k not in ks]
+        return SArr(Buf(vals), (len(vals),), dtype=a.dtype)
+    raise Unsupported("delete on ndim != 1")
+
+
+def sign(x):
+    return _ew(x, lambda v: (sym_ite(v > 0, 1.0, sym_ite(v < 0, -1.0, 0.0)) if is_sym(v) else float((v > 0) - (v < 0))))
+
+
+def floor(x):
+    from . import symmath
+    return _ew(x, symmath.floor)
+
+
+def transpose(a):
+    a = asarray(a)
+    if a.ndim != 2:
+        return a
+    return SArr(a.buf, (a.shape[1], a.shape[0]), (a.strides[1], a.strides[0]), a.offset, a.dtype)
+
+
+def reshape(a, shape):
+    a = asarray(a)
+    shape = tuple(shape) if isinstance(shape, (tuple, list)) else (shape,)
+    n = a.size
+    if -1 in shape:
+        known = 1
+        for s in shape:
+            if s != -1:
+                known *= s
+        shape = tuple(n // known if s == -1 else s for s in shape)
+    if len(shape) > 2:
+        raise Unsupported("reshape to more than 2 dimensions")
+    return SArr(Buf(a.flat()), shape, dtype=a.dtype)
+
+
+class _Linalg:
+    @staticmethod
+    def norm(x, ord=None):
+        from . import symmath
+        vals = asarray(x).flat()
+        if ord in (None, 2):
+            return symmath.sqrt(_sumlist([_mul(v, v) for v in vals]))
+        if ord == 1:
+            return _sumlist([_bi.abs(v) for v in vals])
+        raise Unsupported("norm ord %r" % (ord,))
+
+
+linalg = _Linalg()
+SArr.T = property(lambda self: transpose(self))
+SArr.reshape = lambda self, *shape: reshape(self, shape[0] if len(shape) == 1 and isinstance(shape[0], (tuple, list)) else shape)
